@@ -13,7 +13,7 @@ from oqv import abseval as ae
 from oqv.astutil import branch_context, call_name, method_call
 from oqv.cfg import CFG
 from oqv.dataflow import DefUse, Def, expand
-from oqv.model import AnalysisError, ClassInfo, Program, Unit, dotted, norm, walk_local
+from oqv.model import AnalysisError, ClassInfo, Program, Unit, dotted, norm, walk_local, kw_of
 from oqv.report import Check
 
 
@@ -603,6 +603,97 @@ def _a7_closure_unit(prog: Program, u: Unit):
     return out
 
 
+def slot_memos(u: Unit):
+    """Single-slot memos: `self.X = (k1, .., v)` stored, `return self.X[j]` served under a
+    comparison of other components `self.X[i] == <expr>`.
+    [(store stmt, attr, value index j, {component index: compared expression})]"""
+    out = []
+    stores = [st for st in walk_local(u.node) if isinstance(st, ast.Assign)
+              and len(st.targets) == 1 and (dotted(st.targets[0]) or "").startswith("self.")
+              and dotted(st.targets[0]).count(".") == 1 and isinstance(st.value, ast.Tuple)
+              and len(st.value.elts) >= 2]
+    for st in stores:
+        attr = dotted(st.targets[0])
+        for r in [x for x in walk_local(u.node) if isinstance(x, ast.Return) and x.value is not None]:
+            v = r.value
+            if not (isinstance(v, ast.Subscript) and dotted(v.value) == attr):
+                continue
+            j_ = _small_int(v.slice)
+            if j_ is None:
+                continue
+            j_ = j_ % len(st.value.elts)
+            compared: Dict[int, ast.AST] = {}
+            for (t, br) in branch_context(u.node, r):
+                if not br:
+                    continue
+                for c in ast.walk(t):
+                    if isinstance(c, ast.Compare) and len(c.ops) == 1 and isinstance(c.ops[0], (ast.Eq, ast.Is)):
+                        for a_, b_ in ((c.left, c.comparators[0]), (c.comparators[0], c.left)):
+                            if isinstance(a_, ast.Subscript) and dotted(a_.value) == attr \
+                                    and _small_int(a_.slice) is not None:
+                                compared[_small_int(a_.slice) % len(st.value.elts)] = b_
+                            elif isinstance(a_, ast.Subscript) and dotted(a_.value) == attr \
+                                    and isinstance(a_.slice, ast.Slice) and isinstance(b_, ast.Tuple):
+                                for i_, e_ in enumerate(b_.elts):
+                                    compared[i_] = e_
+            if compared:
+                out.append((st, attr, j_, compared, r))
+    return out
+
+
+def _small_int(e: ast.AST) -> Optional[int]:
+    if isinstance(e, ast.Constant) and isinstance(e.value, int) and not isinstance(e.value, bool):
+        return e.value
+    if isinstance(e, ast.UnaryOp) and isinstance(e.op, ast.USub) and isinstance(e.operand, ast.Constant) \
+            and isinstance(e.operand.value, int):
+        return -e.operand.value
+    return None
+
+
+def _a7_slot_unit(u: Unit):
+    """[(store stmt, attr, covered, missing)] for single-slot memos of u."""
+    from oqv.dataflow import depends_on
+    found = slot_memos(u)
+    if not found:
+        return []
+    du = DefUse(u, CFG(u.node, exc_edges=False))
+    params = [p for p in u.params if p not in ("self", "cls")]
+    out = []
+    seen = set()
+    for (st, attr, j, compared, r) in found:
+        if id(st) in seen or j >= len(st.value.elts):
+            continue
+        seen.add(id(st))
+        nid = du.node_of(st)
+        value = st.value.elts[j]
+        covered = set()
+        for i_, e_ in compared.items():
+            # the stored component i must be what it is later compared with
+            for p_ in params:
+                if i_ < len(st.value.elts) and depends_on(du, st.value.elts[i_], nid, {p_}) \
+                        and any(isinstance(y, ast.Name) and y.id == p_ for y in ast.walk(e_)):
+                    covered.add(p_)
+        needed = {p_ for p_ in params if depends_on(du, value, nid, {p_})}
+        # control dependence: parameters tested on the way to the definitions the value uses
+        work, seen_defs = [(nid, value)], set()
+        while work:
+            at, e = work.pop()
+            for x in ast.walk(e):
+                if isinstance(x, ast.Name) and isinstance(x.ctx, ast.Load):
+                    for d in du.reaching(at, x.id):
+                        if d.id in seen_defs or d.value is None:
+                            continue
+                        seen_defs.add(d.id)
+                        if d.stmt is not None:
+                            for (t, br) in branch_context(u.node, d.stmt):
+                                for y in ast.walk(t):
+                                    if isinstance(y, ast.Name) and y.id in params:
+                                        needed.add(y.id)
+                        work.append((d.node, d.value))
+        out.append((st, attr, sorted(covered), sorted(needed - covered)))
+    return out
+
+
 def memo_findings(prog: Program, units):
     """All memo idioms found in `units`: [(unit, node, construct, missing list)] - dict memos
     (key completeness), lazily initialised attributes, memos reached through a closure."""
@@ -617,6 +708,9 @@ def memo_findings(prog: Program, units):
                 out.append((u, st, f"lazy {attr} <- {norm(st.value)[:50]}", missing))
         for (st, desc, missing) in _a7_closure_unit(prog, u):
             out.append((u, st, f"memo {desc} <- {norm(st.value)[:40]}", missing))
+        for (st, attr, covered, missing) in _a7_slot_unit(u):
+            out.append((u, st, f"single-slot memo {attr} <- {norm(st.value)[:40]} (compared on "
+                               f"{covered})", missing))
     return out
 
 
@@ -745,6 +839,14 @@ def a7(prog: Program, chk: Check) -> None:
                         "value validated against its arguments" if not missing else
                         f"{attr} is computed once from {missing} and then reused: a later call "
                         f"with a different {missing[0]} is served the first value", st)
+        for (st, attr, covered, missing) in _a7_slot_unit(u):
+            n += 1
+            chk.saw(u)
+            chk.add("A7", u, f"single-slot memo {attr} <- {norm(st.value)[:40]}", not missing,
+                    f"served only when {covered} agree" if not missing else
+                    f"the remembered value depends on {missing}, which is not compared when it is "
+                    f"served again: the next call with another {missing[0]} gets the value of the "
+                    f"previous call", st)
         for (st, desc, missing) in _a7_closure_unit(prog, u):
             n += 1
             chk.saw(u)
@@ -981,7 +1083,7 @@ def _fresh_c(prog: Program, u: Unit, du: DefUse, nid: int, arr: str) -> Tuple[bo
         r = _resolve(u.module, v) or ""
         r = r.replace("np.", "numpy.")
         if r in ("numpy.array", "numpy.asarray", "numpy.copy"):
-            order = next((k.value for k in v.keywords if k.arg == "order"), None)
+            order = kw_of(v).get("order", None)
             if isinstance(order, ast.Constant) and order.value == "C":
                 continue
             return False, (f"`{norm(v)}`: numpy's default order 'K' keeps the memory layout of "
